@@ -8,11 +8,18 @@ One op line carries a whole history on a new deque:
   (empty chunks, calls on an empty deque, repeated calls, appends after the last call);
 * ``sp_parse_buf``: one buffer, one call.
 
-Compared per call: the returned packets exactly; the concatenation of the deque's chunks (not their
-number) exactly for junk-free streams of registered packets, and in canonical form (leading positions
-at which both octets are known and no registered ID can be read are stripped, see
-``Parser.canonRest`` / theorem ``C13_early_discard``) for everything else, so that an implementation
-that discards junk earlier than the model is not reported.
+Compared per call (keys ``packets``, ``rest_cmp``, ``final_cmp``): the returned packets exactly; the
+concatenation of the deque's chunks (not their number) exactly as long as the octets fed so far contain
+no junk, and in canonical form otherwise (leading positions at which both octets are known and no
+registered ID can be read are stripped, see ``Parser.canonRest`` / theorem ``C13_early_discard``), so
+that an implementation that discards junk earlier than the model is not reported. The choice is made
+inside the op from the octets themselves. ``rest``, ``rest_canon``, ``queue``, ``final`` are reported by
+both sides for the evidence only.
+
+Every octet string has exactly one decomposition junk/packet/…/tail (theorems ``C13_every_stream``,
+``C13_stream_junk_tail``), so every generated stream is an input inside the property's domain
+(``expect="valid"``); ``spec_scan`` is that decomposition evaluated by the harness, and every op
+checks the real code against it on its own (lossless oracle) before the result is compared with the model.
 """
 import random
 from collections import deque
@@ -51,6 +58,26 @@ def is_junk(ids_raw: Sequence[int], j: bytes, nxt: bytes) -> bool:
     return all(pid_at(b, i) not in ids_raw for i in range(len(j)) if i + 1 < len(b))
 
 
+def spec_scan(ids_raw: Sequence[int], data: bytes) -> Tuple[List[bytes], bytes, int]:
+    """the decomposition the statement prescribes (Props.C13.stream / C13_stream_junk_tail), by the harness:
+    junk positions carry no registered ID, a registered ID starts a packet of `length field + 7` octets,
+    what cannot be decided yet is the tail. Returns (packets, residual, number of junk octets skipped or
+    still undecided in front of the tail)."""
+    i, n, out, junk = 0, len(data), [], 0
+    while n - i > 6:
+        if pid_at(data, i) in ids_raw:
+            total = ((data[i + 4] << 8) | data[i + 5]) + 7
+            if i + total > n:
+                return out, data[i:], junk
+            out.append(data[i:i + total])
+            i += total
+        else:
+            junk += 1
+            i += 1
+    r = data[i:]
+    return out, r, junk + (len(r) - len(canon(ids_raw, r)))
+
+
 def cut_chunks(stream: bytes, cuts: int) -> List[bytes]:
     out, start = [], 0
     for k in range(len(stream) - 1):
@@ -80,13 +107,10 @@ def _pids(a) -> List[PacketId]:
 def _run(a, steps: List[Optional[bytes]]) -> Dict[str, Any]:
     pids = _pids(a)
     ids_raw = [raw_id(t) for t in a["ids"]]
-    exp_packets = [unhx(p) for p in a["expect_packets"]] if a.get("expect_packets") is not None else None
-    exp_tail = unhx(a["expect_tail"]) if a.get("expect_tail") is not None else None
     q: deque = deque()
     fed = bytearray()
     returned: List[bytes] = []
-    packets, rest, rest_canon, queue = [], [], [], []
-    last_append = max((i for i, s in enumerate(steps) if s is not None), default=-1)
+    packets, rest, rest_canon, rest_cmp, queue = [], [], [], [], []
     for i, st in enumerate(steps):
         if st is not None:
             q.append(bytearray(st))
@@ -97,25 +121,27 @@ def _run(a, steps: List[Optional[bytes]]) -> Dict[str, Any]:
         chunks = [bytes(c) for c in q]
         r = b"".join(chunks)
         returned += got
-        # property clauses on the real code alone
+        # the property evaluated on the real code alone (lossless oracle) for the octets fed so far
+        exp_packets, exp_rest, n_junk = spec_scan(ids_raw, bytes(fed))
+        k = len(packets)
+        if returned != exp_packets:
+            raise SelfCheckFailure(f"after call {k}: packets returned so far {[p.hex() for p in returned]}, the octets fed so far "
+                                   f"contain exactly {[p.hex() for p in exp_packets]}")
         if not bytes(fed).endswith(r):
-            raise SelfCheckFailure(f"after call {len(packets)} the queue ({r.hex()}) is not a suffix of the octets fed ({bytes(fed).hex()})")
-        if exp_packets is not None:
-            if returned != exp_packets[:len(returned)]:
-                raise SelfCheckFailure(f"after call {len(packets)} the packets returned so far {[p.hex() for p in returned]} "
-                                       f"are not a prefix of the stream's packets {[p.hex() for p in exp_packets]}")
-            if i > last_append:
-                if returned != exp_packets:
-                    raise SelfCheckFailure(f"all octets fed and parsed, but returned {[p.hex() for p in returned]} "
-                                           f"instead of {[p.hex() for p in exp_packets]}")
-                if exp_tail is not None and not r.endswith(exp_tail):
-                    raise SelfCheckFailure(f"all octets fed and parsed, queue {r.hex()} does not hold the incomplete tail {exp_tail.hex()}")
+            raise SelfCheckFailure(f"after call {k}: the queue ({r.hex()}) is not a suffix of the octets fed")
+        if canon(ids_raw, r) != canon(ids_raw, exp_rest):
+            raise SelfCheckFailure(f"after call {k}: the queue holds {r.hex()}, the not-yet-complete tail is {exp_rest.hex()}")
+        if n_junk == 0 and r != exp_rest:
+            raise SelfCheckFailure(f"after call {k}: junk-free stream, the queue holds {r.hex()} instead of exactly the tail {exp_rest.hex()}")
         packets.append([p.hex() for p in got])
+        rest_cmp.append((r if n_junk == 0 else canon(ids_raw, r)).hex())
         rest.append(r.hex())
         rest_canon.append(canon(ids_raw, r).hex())
         queue.append([c.hex() for c in chunks])
-    return {"packets": packets, "rest": rest, "rest_canon": rest_canon, "queue": queue,
-            "final": b"".join(bytes(c) for c in q).hex()}
+    final = b"".join(bytes(c) for c in q)
+    final_cmp = final if spec_scan(ids_raw, bytes(fed))[2] == 0 else canon(ids_raw, final)
+    return {"packets": packets, "rest_cmp": rest_cmp, "final_cmp": final_cmp.hex(), "rest": rest, "rest_canon": rest_canon,
+            "queue": queue, "final": final.hex()}
 
 
 def op_sp_parse_run(a):
@@ -130,11 +156,15 @@ def op_sp_parse_buf(a):
     raw = unhx(a["raw"])
     ids_raw = [raw_id(t) for t in a["ids"]]
     q = deque([bytearray(raw)])
-    out = parse_space_packets(q, _pids(a))
+    out = [bytes(p) for p in parse_space_packets(q, _pids(a))]
     r = b"".join(bytes(c) for c in q)
-    if not raw.endswith(r):
-        raise SelfCheckFailure(f"queue {r.hex()} is not a suffix of the buffer")
-    return {"packets": [bytes(p).hex() for p in out], "rest": r.hex(), "rest_canon": canon(ids_raw, r).hex()}
+    exp_packets, exp_rest, n_junk = spec_scan(ids_raw, raw)
+    if out != exp_packets:
+        raise SelfCheckFailure(f"returned {[p.hex() for p in out]}, the buffer contains exactly {[p.hex() for p in exp_packets]}")
+    if not raw.endswith(r) or canon(ids_raw, r) != canon(ids_raw, exp_rest) or (n_junk == 0 and r != exp_rest):
+        raise SelfCheckFailure(f"the queue holds {r.hex()}, the not-yet-complete tail is {exp_rest.hex()}")
+    return {"packets": [p.hex() for p in out], "rest_cmp": (r if n_junk == 0 else canon(ids_raw, r)).hex(), "rest": r.hex(),
+            "rest_canon": canon(ids_raw, r).hex()}
 
 
 def op_sp_parse_consts(a):
@@ -145,8 +175,11 @@ def op_sp_parse_consts(a):
 OPS = {"sp_parse_run": op_sp_parse_run, "sp_parse_cuts": op_sp_parse_cuts, "sp_parse_buf": op_sp_parse_buf,
        "sp_parse_consts": op_sp_parse_consts}
 
-EXACT = ["packets", "rest", "final"]        # junk-free streams of registered packets
-RELAXED = ["packets", "rest_canon"]          # streams with junk / arbitrary octets
+# what is compared with the model: the packets returned by every call, and the queue content after every call
+# (rest_cmp / final_cmp: exactly while the octets fed contain no junk, in canonical form otherwise; the decision
+# is taken inside the op, from the octets, so it stays right when a failing case is shrunk)
+CMP = ["packets", "rest_cmp", "final_cmp"]
+CMP_BUF = ["packets", "rest_cmp"]
 
 
 # --------------------------------------------------------------------------------------------
@@ -191,7 +224,8 @@ class Stream:
         self.ids_raw = [raw_id(t) for t in ids]
         self.data = b"".join(j + p for j, p in segs) + tail_junk + tail
         self.packets = [p for _, p in segs]
-        self.junk_free = all(len(j) == 0 for j, _ in segs) and len(tail_junk) == 0
+        self._junk: Optional[int] = None
+        self._wf: Optional[bool] = None
         # positions worth cutting at: around every packet start / header end / packet end
         marks = set()
         pos = 0
@@ -208,7 +242,9 @@ class Stream:
         self.marks = sorted(m for m in marks if 0 < m < len(self.data))
 
     def wf(self) -> bool:
-        """the hypotheses of C13_lossless, evaluated by the harness"""
+        """the hypotheses of C13_lossless for the decomposition this stream was BUILT with, evaluated by the harness
+        (false e.g. when a substituted octet or an unregistered packet happens to read as a registered ID: the octets
+        then decompose differently, see spec_scan)"""
         r = self.ids_raw
         for j, p in self.segs:
             if not (len(p) > 6 and pid_at(p, 0) in r and len(p) == ((p[4] << 8) | p[5]) + 7 and is_junk(r, j, p)):
@@ -217,24 +253,24 @@ class Stream:
         inc = len(t) <= 6 or (pid_at(t, 0) in r and len(t) < ((t[4] << 8) | t[5]) + 7)
         return inc and is_junk(r, self.tail_junk, t)
 
-    def extra(self) -> Dict[str, Any]:
-        return {"expect_packets": [p.hex() for p in self.packets], "expect_tail": self.tail.hex()}
+    def tag(self, tag: str) -> str:
+        if self._junk is None:
+            self._junk = spec_scan(self.ids_raw, self.data)[2]
+        if self._wf is None:
+            self._wf = self.wf()
+        return tag + ("" if self._junk == 0 else "+junk") + ("" if self._wf else "-arbitrary")
 
     def case_cuts(self, cuts: int, parses: int, tag: str) -> Case:
-        valid = self.wf()
         op = {"op": "sp_parse_cuts", "ids": [list(t) for t in self.ids], "stream": self.data.hex(), "cuts": cuts, "parses": parses}
-        if valid:
-            op.update(self.extra())
-        return Case(op, "valid" if valid else "any", tag=tag + ("" if self.junk_free else "+junk") + ("" if valid else "-arbitrary"),
-                    keys=EXACT if (valid and self.junk_free) else RELAXED)
+        return Case(op, "valid", tag=self.tag(tag), keys=CMP)
 
-    def case_run(self, steps: List[Optional[bytes]], tag: str, final_parse: bool) -> Case:
-        valid = self.wf()
+    def case_run(self, steps: List[Optional[bytes]], tag: str) -> Case:
         op = {"op": "sp_parse_run", "ids": [list(t) for t in self.ids], "steps": [None if s is None else s.hex() for s in steps]}
-        if valid and final_parse:
-            op.update(self.extra())
-        return Case(op, "valid" if valid else "any", tag=tag + ("" if self.junk_free else "+junk") + ("" if valid else "-arbitrary"),
-                    keys=EXACT if (valid and self.junk_free) else RELAXED)
+        return Case(op, "valid", tag=self.tag(tag), keys=CMP)
+
+    def case_buf(self, tag: str) -> Case:
+        return Case({"op": "sp_parse_buf", "ids": [list(t) for t in self.ids], "raw": self.data.hex()}, "valid",
+                    tag=self.tag(tag), keys=CMP_BUF)
 
 
 def mk_stream(rng: random.Random, ids: List[Triple], dlens: List[int], junk: List[int], tail_junk: int, tail_cut: Optional[int],
@@ -318,8 +354,8 @@ class C13(Prop):
             return
         n = len(data) // 2
         for k in range(min(n - 1, 64)):
-            yield Case({"op": "sp_parse_cuts", "ids": o["ids"], "stream": data, "cuts": 1 << k, "parses": 1}, "any",
-                       tag="neighbour", keys=RELAXED)
+            yield Case({"op": "sp_parse_cuts", "ids": o["ids"], "stream": data, "cuts": 1 << k, "parses": 1}, "valid",
+                       tag="neighbour", keys=CMP)
 
     # ----------------------------------------------------------------------------------------
     def cases(self, rng: random.Random, tier: str) -> Iterator[Case]:
@@ -339,20 +375,20 @@ class C13(Prop):
         # --- explicit schedules: calls on an empty deque, empty chunks, repeated calls, appends after the last call
         s = mk_stream(rng, ids0, [1, 0], [0, 0], 0, 5)
         d = s.data
-        yield s.case_run([None, None, b"", None, d[:3], None, None, b"", d[3:6], None, d[6:7], b"", None, d[7:], None, None], "explicit", True)
-        yield s.case_run([d[:4], None, d[4:]], "explicit-no-final-call", False)
-        yield s.case_run([b"", b"", None], "explicit-empty-chunks", False)
-        yield s.case_run([d, None, None], "explicit", True)
-        yield s.case_run([d[:10], None, d[10:], None, d[:9]], "explicit-trailing-append", False)
-        yield s.case_run([bytes([x]) for x in d] + [None], "explicit-octet-chunks", True)
+        yield s.case_run([None, None, b"", None, d[:3], None, None, b"", d[3:6], None, d[6:7], b"", None, d[7:], None, None], "explicit")
+        yield s.case_run([d[:4], None, d[4:]], "explicit-no-final-call")
+        yield s.case_run([b"", b"", None], "explicit-empty-chunks")
+        yield s.case_run([d, None, None], "explicit")
+        yield s.case_run([d[:10], None, d[10:], None, d[:9]], "explicit-trailing-append")
+        yield s.case_run([bytes([x]) for x in d] + [None], "explicit-octet-chunks")
         for id_set in ID_SETS:
             st = mk_stream(rng, id_set, [0, 2], [0, 3], 2, 4)
             steps: List[Optional[bytes]] = []
             for x in st.data:
                 steps += [bytes([x]), None]
-            yield st.case_run(steps, "explicit-octet-by-octet", True)
-        yield Case({"op": "sp_parse_run", "ids": [], "steps": [None, rbytes(rng, 20).hex(), None, rbytes(rng, 3).hex(), None]}, "any",
-                   tag="no-ids", keys=RELAXED)
+            yield st.case_run(steps, "explicit-octet-by-octet")
+        yield Case({"op": "sp_parse_run", "ids": [], "steps": [None, rbytes(rng, 20).hex(), None, rbytes(rng, 3).hex(), None]}, "valid",
+                   tag="no-ids", keys=CMP)
 
         # --- exhaustive: every cut set x every subset of call points, streams of <= 9 octets ------------------
         small = [
@@ -395,10 +431,9 @@ class C13(Prop):
         tailb = rbytes(rng, 1)
         for w in range(65536):
             buf = bytes([w >> 8, w & 0xFF]) + rbytes(rng, 2) + b"\x00\x00" + tailb
-            if (w & 0x1FFF) in raw3:
-                yield Case({"op": "sp_parse_buf", "ids": [list(t) for t in ids3], "raw": buf.hex()}, "valid", tag="first-word-sweep-registered", keys=EXACT[:2])
-            else:
-                yield Case({"op": "sp_parse_buf", "ids": [list(t) for t in ids3], "raw": buf.hex()}, "any", tag="first-word-sweep-other", keys=RELAXED)
+            reg = (w & 0x1FFF) in raw3
+            yield Case({"op": "sp_parse_buf", "ids": [list(t) for t in ids3], "raw": buf.hex()}, "valid",
+                       tag="first-word-sweep-registered" if reg else "first-word-sweep-other", keys=CMP_BUF)
 
         # --- length field boundaries (big packets; few cuts, at the places that matter) ---------------------------
         big = [254, 255, 256, 257, 1000] + ([65534, 65535] if thorough else [65535])
@@ -409,8 +444,8 @@ class C13(Prop):
             for pos in (1, 2, 5, 6, 7, L - 1, L, L + 1, L + 6):
                 if 0 < pos < n:
                     steps = [s.data[:pos], None, s.data[pos:], None]
-                    yield s.case_run(steps, "length-boundary", True)
-            yield s.case_run([s.data, None], "length-boundary", True)
+                    yield s.case_run(steps, "length-boundary")
+            yield s.case_run([s.data, None], "length-boundary")
 
         # --- every registered-ID set, every version, boundary cuts and random cut sets on longer streams --------
         n_streams = 1500 if thorough else 160
@@ -453,7 +488,7 @@ class C13(Prop):
                 elif x < 0.7:
                     steps += [b"", None]
             steps.append(None)
-            yield s.case_run(steps, "random-schedule", True)
+            yield s.case_run(steps, "random-schedule")
 
         # --- packets produced by the package itself, registered through their packet_id property ---------------
         yield from self._library_packets(rng, thorough)
@@ -494,11 +529,10 @@ class C13(Prop):
             n = len(s.data)
             if n == 0:
                 continue
-            yield Case({"op": "sp_parse_buf", "ids": [list(t) for t in ids], "raw": s.data.hex()}, "valid" if s.wf() else "any",
-                       tag="malformed-buf" if not s.wf() else "unregistered-is-junk-buf", keys=RELAXED)
+            yield s.case_buf("malformed-buf" if not s.wf() else "as-built-buf")
             for _ in range(3):
                 cuts = rng.getrandbits(max(1, n - 1)) & rng.getrandbits(max(1, n - 1))
-                yield s.case_cuts(cuts, rng.getrandbits(8), "malformed" if not s.wf() else "unregistered-is-junk")
+                yield s.case_cuts(cuts, rng.getrandbits(8), "malformed" if not s.wf() else "as-built")
             # every truncation of the stream, in two chunks
             if i % 10 == 0:
                 for k in range(n):
